@@ -9,6 +9,7 @@
 #include "ola/web/JsonLexer.h"
 #include "ola/web/JsonParser.h"
 #include "ola/web/JsonPatch.h"
+#include "ola/web/JsonPatchParser.h"
 #include "ola/web/JsonPointer.h"
 #include "ola/web/JsonWriter.h"
 #include "vh.h"
@@ -168,7 +169,7 @@ static const unsigned kParseWatchdogSeconds = 4;
 static string handle(const string &p) {
   vector<string> a = vh::split(p);
   const string &op = a[0];
-  if (op == "parse" || op == "deep" || op == "tree" || op == "len" || op == "seq") alarm(kParseWatchdogSeconds);
+  if (op == "parse" || op == "deep" || op == "tree" || op == "len" || op == "seq" || op == "pdoc") alarm(kParseWatchdogSeconds);
   if (op == "ptr") {                      // pointer from its string form
     JsonPointer ptr(S(a[1]));
     if (!ptr.IsValid()) return "valid=0";
@@ -205,6 +206,20 @@ static string handle(const string &p) {
       if (close) for (unsigned i = n; i > 0; i--) t += ((i - 1) & 1) ? "}" : "]";
     }
     return parse_result(t, false);
+  }
+  if (op == "pdoc") {                      // patch given as TEXT: JsonPatchParser, then JsonData::Apply
+    string text = S(a[2]);
+    JsonPatchSet set;
+    string err;
+    bool ok = JsonPatchParser::Parse(text, &set, &err);
+    JsonData d(build_s(a[1]));
+    if (!ok) {
+      string lexerr;
+      std::auto_ptr<JsonValue> lexed(JsonParser::Parse(text, &lexerr));
+      return "pp=0;perr=" + (lexed.get() ? H(err) : string("lex")) + ";all=0;dall=" + show(d.Value());
+    }
+    bool applied = d.Apply(set);
+    return string("pp=1;all=") + (applied ? "1" : "0") + ";dall=" + show(d.Value());
   }
   if (op == "cmp") {                       // operator== / != / < / <= / > / >= between two values
     std::auto_ptr<JsonValue> x(build_s(a[1])), y(build_s(a[2]));
